@@ -6,6 +6,7 @@ import (
 	"go/token"
 	"go/types"
 	"os"
+	"regexp"
 	"sort"
 	"strings"
 
@@ -94,14 +95,23 @@ func loadWorld(cfg LoadConfig) (*World, error) {
 	}
 	var normNotes []string
 	var dead map[string]bool
+	renames := map[string]string{}
+	fieldAlias = map[*types.Var]string{}
 	if !noNormalise && !anyModuleErrors(roots) {
-		if overlay, rep := normalise(roots, loadInventory()); overlay != nil {
+		inv := loadInventory()
+		renames = resolveRenames(roots, inv)
+		for nk, ok := range renames {
+			inv[nk] = inv[ok]
+			normNotes = append(normNotes, fmt.Sprintf("renamed: %s is analysed in the place of the inventory function %s (same package, receiver and signature; %s is gone)", nk, ok, ok))
+		}
+		sort.Strings(normNotes)
+		if overlay, rep := normalise(roots, inv); overlay != nil {
 			pc2 := *pc
 			pc2.Overlay = overlay
 			roots2, err2 := packages.Load(&pc2, "./...")
 			if err2 == nil && !anyModuleErrors(roots2) {
 				roots = roots2
-				normNotes = rep.notes()
+				normNotes = append(normNotes, rep.notes()...)
 				dead = rep.Dead
 				if dumpNormalised {
 					for name, b := range overlay {
@@ -116,7 +126,7 @@ func loadWorld(cfg LoadConfig) (*World, error) {
 					msg = firstModuleError(roots2)
 				}
 				rep.Err = "the expanded source does not type-check: " + msg
-				normNotes = rep.notes()
+				normNotes = append(normNotes, rep.notes()...)
 				if dumpNormalised {
 					for name, b := range overlay {
 						fmt.Printf("==== %s (normalised, REJECTED: %s)\n%s\n", name, msg, b)
@@ -124,7 +134,7 @@ func loadWorld(cfg LoadConfig) (*World, error) {
 				}
 			}
 		} else {
-			normNotes = rep.notes()
+			normNotes = append(normNotes, rep.notes()...)
 		}
 	}
 	w := &World{Dir: cfg.Dir, Env: env, All: map[string]*packages.Package{}, Roots: roots, NormNotes: normNotes}
@@ -161,6 +171,27 @@ func loadWorld(cfg LoadConfig) (*World, error) {
 		return nil, fmt.Errorf("ssa packages missing")
 	}
 	w.allFuncs = ssautil.AllFunctions(prog)
+	if !noNormalise {
+		var fnotes []string
+		fieldAlias, fnotes = resolveFieldRenames(roots)
+		w.NormNotes = append(w.NormNotes, fnotes...)
+		var cnotes []string
+		constAlias, cnotes = resolveConstRenames(roots)
+		w.NormNotes = append(w.NormNotes, cnotes...)
+	}
+	// renamed functions answer to their inventory names
+	aliasOldName = map[types.Object]string{}
+	aliasNewName = map[string]string{}
+	for nk, ok := range renames {
+		aliasNewName[ok] = nk
+	}
+	for f := range w.allFuncs {
+		if f.Parent() == nil && f.Object() != nil && f.Synthetic == "" {
+			if ok, has := renames[ssaDeclKey(f)]; has {
+				aliasOldName[f.Object()] = ok[strings.LastIndex(ok, ".")+1:]
+			}
+		}
+	}
 	w.CG = vta.CallGraph(w.allFuncs, cha.CallGraph(prog))
 	if len(dead) > 0 {
 		// expanded helpers nothing refers to any more are not part of the analysed program
@@ -221,23 +252,50 @@ func (w *World) inModuleOrFB(f *ssa.Function) bool {
 }
 
 // funcName gives a stable, position-free name: pkg.(*T).M, pkg.F, pkg.F$1.
+// aliasOldName: renamed function object -> the name it has in the inventory; aliasNewName: inventory key -> current key.
+var aliasOldName = map[types.Object]string{}
+var aliasNewName = map[string]string{}
+
 func funcName(f *ssa.Function) string {
 	if f == nil {
 		return "<nil>"
 	}
 	s := f.String()
+	if len(aliasOldName) > 0 {
+		root := f
+		for root.Parent() != nil {
+			root = root.Parent()
+		}
+		if o := root.Object(); o != nil {
+			if old, ok := aliasOldName[o]; ok {
+				rs := root.String()
+				if strings.HasPrefix(s, rs) && strings.HasSuffix(rs, "."+o.Name()) {
+					s = rs[:len(rs)-len(o.Name())] + old + s[len(rs):]
+				}
+			}
+		}
+	}
 	s = strings.ReplaceAll(s, libPath+"/cmd/whispertool", "main")
 	s = strings.ReplaceAll(s, libPath+"/cmd", "cmd")
 	s = strings.ReplaceAll(s, libPath, "whispertool")
 	s = strings.ReplaceAll(s, fbPath, "filebuffer")
+	// methods of module types are named pkg.T.M whatever the receiver kind (pointer or value)
+	if strings.HasPrefix(s, "(") {
+		s = reRecvForm.ReplaceAllString(s, "$1.")
+	}
 	return s
 }
+
+var reRecvForm = regexp.MustCompile(`^\(\*?((?:whispertool|cmd|main|filebuffer)\.\w+)\)\.`)
 
 // fn finds a package-level function or a method by "Name" or "T.Name" (pointer or
 // value receiver alike). Returns nil when absent.
 func fn(pkg *ssa.Package, name string) *ssa.Function {
 	if pkg == nil {
 		return nil
+	}
+	if nk, ok := aliasNewName[pkg.Pkg.Path()+"."+name]; ok {
+		name = nk[len(pkg.Pkg.Path())+1:]
 	}
 	if i := strings.Index(name, "."); i >= 0 {
 		tn, mn := name[:i], name[i+1:]
